@@ -1055,3 +1055,124 @@ def enum_restore(tier):
 
 SUBS.append(Sub("restore_grid", run_restore_history, enum=enum_restore,
                 doc="simulation kind x solver / stopping rule x restored iteration (first, peak, after the peak) x initial-configuration save"))
+
+
+# ------------------------------------------------------------------------------------------
+# (added by the lead) "material or model parameters" of every elastic law class, not only the isotropic one: moduli, Poisson
+# ratios, thickness, plane-stress flag, and Anisotropic.Set_C with each combination of its options - each change made AFTER the
+# matrices were assembled, the next matrices and solution against a new simulation built with the final parameters
+
+
+LAW_PARAMS = dict(iso=["E", "v"], tiso=["El", "Et", "Gl", "vl", "vt"], ortho=["E1", "E2", "E3", "G23", "G13", "G12", "v23", "v13", "v12"])
+
+
+@st.composite
+def law_histories(draw):
+    dim = draw(st.sampled_from([2, 2, 3]))
+    spec = draw(gmod.elastic_specs(dim))
+    spec["unit"] = 1.0
+    ops = []
+    for _ in range(draw(st.integers(1, 4))):
+        if spec["cls"] == "aniso":
+            kind = draw(st.sampled_from(["set_c", "set_c", "thickness", "read"]))
+        else:
+            kind = draw(st.sampled_from(["param", "param", "thickness", "planeStress", "read"]))
+        op = dict(op=kind)
+        if kind == "param":
+            op["name"] = draw(st.sampled_from(LAW_PARAMS[spec["cls"]]))
+            op["factor"] = draw(st.sampled_from([0.5, 0.8, 1.25, 2.0, 1.0 + 3e-6]))
+        elif kind == "thickness":
+            op["value"] = draw(st.sampled_from([0.25, 0.75, 1.5, 3.0]))
+        elif kind == "set_c":
+            op.update(Cseed=draw(st.integers(0, 9999)), voigt=draw(st.booleans()), update_S=draw(st.booleans()), how=draw(st.sampled_from(["kw", "pos"])))
+        ops.append(op)
+    if dim == 2:
+        r = draw(gm.recipes2d(types=["TRI3", "QUAD4", "TRI6"], affine_ok=False, perm_ok=False, hmin=6, hmax=9, nmax=4))
+    else:
+        r = draw(gm.recipes3d(types=["TETRA4", "HEXA8", "PRISM6"], affine_ok=False, perm_ok=False, nmax=3))
+    return dict(kind="law", recipe=r, law=spec, ops=ops, shared=draw(st.booleans()))
+
+
+def _law_problem(mesh, mat, dim):
+    simu = Simulations.Elastic(mesh, mat)
+    X = np.asarray(mesh.coord, float)
+    used = gm.used_nodes(mesh)
+    xs = X[used, 0]
+    left = used[xs <= xs.min() + 0.3 * np.ptp(xs)]
+    if left.size < dim + 1:  # enough clamped nodes to hold the rigid rotations
+        left = used[np.argsort(xs, kind="stable")[: dim + 1]]
+    right = np.setdiff1d(used[xs >= xs.max() - 0.3 * np.ptp(xs)], left)
+    if right.size == 0:
+        raise Inconclusive("mesh too small for a clamped and a loaded patch")
+    unk = simu.Get_unknowns()
+    simu.add_dirichlet(left, [0.0] * dim, unk)
+    simu.add_neumann(right, [0.3, -0.2, 0.1][:dim], unk)
+    return simu
+
+
+def run_law_history(case, rec):
+    dim = int(case["law"]["dim"])
+    spec = dict(case["law"])
+    mesh = gm.build(case["recipe"])
+    if mesh.Nn * dim > 400:
+        raise Inconclusive("mesh too large")
+    mat = gmod.make_elastic(spec)
+    simu = _law_problem(mesh, mat, dim)
+    other = _law_problem(mesh.copy(), mat, dim) if case.get("shared") else None  # a second simulation observing the same law
+    sig = dict(kind="law", cls=spec["cls"], dim=dim)
+    rec.label("law:" + spec["cls"], f"dim:{dim}", "shared_law" if other is not None else "own_law")
+    changed = False
+    for sim in [simu] + ([other] if other is not None else []):
+        sim.Get_K_C_M_F()  # matrices assembled before any change
+        sim.Solve()
+    for op in case["ops"]:
+        name = op["op"]
+        s2 = dict(sig, op=name)
+        try:
+            if name == "param":
+                spec[op["name"]] = float(spec[op["name"]]) * op["factor"]
+                setattr(mat, op["name"], spec[op["name"]])
+                s2["param"] = op["name"]
+                changed = True
+            elif name == "thickness":
+                spec["thickness"] = op["value"]
+                mat.thickness = op["value"]
+                changed = True
+            elif name == "planeStress" and dim == 2:
+                spec["planeStress"] = not spec["planeStress"]
+                mat.planeStress = spec["planeStress"]
+                changed = True
+            elif name == "set_c":
+                spec.update(Cseed=op["Cseed"], voigt=op["voigt"])
+                n = 3 if dim == 2 else 6
+                B = np.random.default_rng(op["Cseed"]).uniform(-1, 1, (n, n))
+                C = B @ B.T + 1.5 * np.eye(n)
+                if op["voigt"]:
+                    w = np.array([1.0] * (n // 2 if dim == 3 else 2) + [np.sqrt(2)] * (3 if dim == 3 else 1))
+                    C = C / np.outer(w, w)
+                if op["how"] == "kw":
+                    mat.Set_C(C, useVoigtNotation=bool(op["voigt"]), update_S=bool(op["update_S"]))
+                else:
+                    mat.Set_C(C, bool(op["voigt"]), bool(op["update_S"]))
+                s2.update(update_S=bool(op["update_S"]))
+                rec.label("set_c:update_S" if op["update_S"] else "set_c:keep_S")
+                changed = True
+        except AssertionError:
+            raise Inconclusive("parameter value rejected by the law")
+        fresh = _law_problem(gm.build(case["recipe"]), gmod.make_elastic(spec), dim)
+        Kf = orc.dense(fresh.Get_K_C_M_F()[0])
+        uf = np.asarray(fresh.Solve(), float)
+        if not np.all(np.isfinite(uf)):
+            raise Inconclusive("the reference problem is singular")
+        for tag, sim in [("", simu)] + ([("(second simulation sharing the law) ", other)] if other is not None else []):
+            K = orc.dense(sim.Get_K_C_M_F()[0])
+            rec.close(K - Kf, float(np.abs(Kf).max()), 1e-10, "stale_K_after_law_change",
+                      f"{tag}{spec['cls']} {dim}D after '{name}' {op}: K differs from the one of a simulation built with the final parameters", **s2)
+            u = np.asarray(sim.Solve(), float)
+            rec.close(u - uf, float(np.abs(uf).max()) + 1e-12, 1e-8, "stale_solution_after_law_change",
+                      f"{tag}{spec['cls']} {dim}D after '{name}': the solution differs from the one of a new simulation", **s2)
+        rec.label("op:" + name)
+    rec.nontrivial(changed)
+
+
+SUBS.append(Sub("law_parameters", run_law_history, gen=law_histories, quick=80, thorough=600, shards=6))
